@@ -26,6 +26,18 @@ class C15Mode(SerializableEnum):
     AUTO = 7
 
 
+class C15Level(SerializableEnum):
+    """shares its values with C15Mode"""
+    LOW = 0
+    HIGH = 1
+
+
+class C15Name(SerializableEnum):
+    A = "a"
+    B = "b b"
+    EMPTY = ""
+
+
 class C15Inner(Serializable):
     n: int = 0
     s: str = ""
@@ -49,10 +61,12 @@ VALUES = {
     str: ["", "é", "a b", "UPPER"],
     bool: [True, False],
     C15Mode: [C15Mode.OFF, C15Mode.ON, C15Mode.AUTO],
+    C15Level: [C15Level.LOW, C15Level.HIGH],
+    C15Name: [C15Name.A, C15Name.B, C15Name.EMPTY],
     C15Inner: [C15Inner(), C15Inner(n=-5, s="日本"), C15Inner(n=2 ** 40, s="x")],
 }
-BASIC = [int, float, str, bool, C15Mode]
-KEYS = [int, str, C15Mode]
+BASIC = [int, float, str, bool, C15Mode, C15Level, C15Name]
+KEYS = [int, str, C15Mode, C15Name]
 
 
 def tname(t):
